@@ -265,3 +265,118 @@ def render_c07(case, c, seed):
     src = ("".join(others) + trait_text + target_impl("X1") + target_impl("X2") + "\n".join(glue) +
            "\npub fn run() {\n    " + "\n    ".join(scs) + "\n}\n")
     return src, descs
+
+
+# ------------------------------------------------------------------------------------------------
+# C05: concrete dependency
+# ------------------------------------------------------------------------------------------------
+
+def render_c05(case, c, seed):
+    p = c["prog"]
+    rng = random.Random(f"{seed}:{case}")
+    is_async = p["async"]
+    fnkw = "async fn" if is_async else "fn"
+    cty = {"ident": "Conc", "path": "self::Conc", "inst": "Gen<u8>", "tuple": "(u8, u16)", "reflife": "Conc"}[p["shape"]]
+    cval = {"ident": 'Conc { name: "conc" }', "path": 'Conc { name: "conc" }', "inst": "Gen(7u8)", "tuple": "(1u8, 2u16)",
+            "reflife": 'Conc { name: "conc" }'}[p["shape"]]
+    ps = params_of(p)
+    first_str = next((n for (n, t, _) in ps if t == "&str"), None)
+    # lifetimes
+    gens = ""
+    deps_ty = f"&{cty}"
+    ret_ty = "String"
+    ptexts = []
+    for (n, t, _) in ps:
+        ptexts.append(f"{n}: {t}")
+    if p["ret"] == "borrow-deps" or p["shape"] == "reflife":
+        gens = "<'a>"
+        deps_ty = f"&'a {cty}"
+    if p["ret"] == "borrow-deps":
+        ret_ty = "&'a str"
+    if p["ret"] == "borrow-arg":
+        gens = "<'b>" if not gens else "<'a, 'b>"
+        ptexts = [f"{n}: &'b str" if n == first_str else f"{n}: {t}" for (n, t, _) in ps]
+        ret_ty = "&'b str"
+    sig_params = "".join(", " + x for x in ptexts)
+    valexpr = {"owned": None, "borrow-deps": "deps.name", "borrow-arg": first_str}[p["ret"]]
+
+    def body(fname, ident, extra="", value=None, is_provider=False):
+        logs = [l for _, _, l in ps]
+        v = value if value else 'format!("{}({})", __f, __args)'
+        tail = "__val" if not value else "__val"
+        return f"""{{
+        let __f: String = String::from("{fname}");
+        let __args: String = {args_json_expr(logs)};
+        ::vt::emit("enter", &format!("\\"f\\":{{}},\\"deps\\":{{}},\\"args\\":[{{}}]", ::vt::js(&__f), ::vt::js(&{ident}), __args));
+        {"::vt::yield_once().await;" if is_async else ""}
+        {extra}
+        let __val = {v};
+        ::vt::emit("exit", &format!("\\"f\\":{{}},\\"val\\":{{}}", ::vt::js(&__f), ::vt::js(&__val.to_string())));
+        {tail}
+    }}"""
+
+    fn_item = (f"#[::entrait::entrait(pub Tr)]\n{fnkw} f{gens}(deps: {deps_ty}{sig_params}) -> {ret_ty} "
+               + body(f"{case}::f", "::vt::addr(deps)", value=valexpr) + "\n")
+    # hand-written impls
+    self_ty = "&'a self" if "'a" in gens else "&self"
+    argnames = "".join(f", {n}" for n, _, _ in ps)
+    logged_args = args_json_expr([l for _, _, l in ps])
+    awaitkw = ".await" if is_async else ""
+
+    def handwritten(ty, cfield):
+        inner = f"""let __cargs: String = {logged_args};
+        ::vt::emit("call", &format!("\\"m\\":\\"fnf\\",\\"recv\\":{{}},\\"args\\":[{{}}]", ::vt::js(&::vt::addr(&self.{cfield})), __cargs));
+        let __r = f(&self.{cfield}{argnames}){awaitkw};
+        ::vt::emit("ret", &format!("\\"m\\":\\"fnf\\",\\"val\\":{{}}", ::vt::js(&__r.to_string())));"""
+        # the provider's own enter/exit around the direct call
+        logs = [l for _, _, l in ps]
+        return f"""impl Tr for {ty} {{
+    {fnkw} f{gens}({self_ty}{sig_params}) -> {ret_ty} {{
+        let __f: String = String::from("provider:App::f");
+        let __args: String = {args_json_expr(logs)};
+        ::vt::emit("enter", &format!("\\"f\\":{{}},\\"deps\\":{{}},\\"args\\":[{{}}]", ::vt::js(&__f), ::vt::js(&::vt::addr(self)), __args));
+        {inner}
+        ::vt::emit("exit", &format!("\\"f\\":{{}},\\"val\\":{{}}", ::vt::js(&__f), ::vt::js(&__r.to_string())));
+        __r
+    }}
+}}
+"""
+    types = f"""pub struct Conc {{ pub name: &'static str }}
+pub struct Gen<T>(pub T);
+pub struct AppT {{ pub c: {cty} }}
+pub struct XT;
+pub struct NoSyncT {{ pub c: {cty}, pub cell: ::core::cell::Cell<u8> }}
+"""
+    impls = handwritten("AppT", "c")
+    with_nosync = not is_async
+    if with_nosync:
+        impls += handwritten("NoSyncT", "c")
+    scs, descs = [], {}
+    exprs, logged = args_of(p, rng)
+    argl = "".join(", " + e for e in exprs)
+    n = 0
+    own_fn = {"f": f"{case}::f", "fnf": f"{case}::f"}
+    own_app = {"f": "provider:App::f", "fnf": f"{case}::f"}
+    depsmap = {"f": "recv", "fnf": "recv"}
+    pair = f"{case}:p"
+    plan = [("direct", f"let c: {cty} = {cval};", "::vt::addr(&c)", f"f(&c{argl})", own_fn),
+            ("C", f"let c: {cty} = {cval};", "::vt::addr(&c)", f"Tr::f(&c{argl})", own_fn),
+            ("ImplC", f"let app = ::entrait::Impl::new({cval});", "::vt::addr(&*app)", f"Tr::f(&app{argl})", own_fn),
+            ("ImplApp", f"let app = ::entrait::Impl::new(AppT {{ c: {cval} }});", "::vt::addr(&*app)", f"Tr::f(&app{argl})", own_app)]
+    for kind, make, recv, call, own in plan:
+        n += 1
+        scs.append(scenario(case, n, recv, "f", logged, call, is_async, make=make))
+        descs[n] = {"own": own, "deps": depsmap, "expect": "ok", "avail": {}, "pair": pair, "allocpair": "", "answer": "", "kind": kind}
+    n += 1
+    probe_types = {"C": cty, "ImplC": f"::entrait::Impl<{cty}>", "App": "AppT", "ImplApp": "::entrait::Impl<AppT>", "X": "XT", "ImplX": "::entrait::Impl<XT>"}
+    if with_nosync:
+        probe_types.update({"NoSync": "NoSyncT", "ImplNoSync": "::entrait::Impl<NoSyncT>"})
+    probes = [f'::vt::emit("scenario", "\\"case\\":\\"{case}\\",\\"sc\\":{n}");']
+    for k, ty in probe_types.items():
+        probes.append(f'::vt::emit("avail", &format!("\\"probe\\":\\"{k}\\",\\"has\\":{{}}", ::vt::has_impl!({ty}: Tr)));')
+    probes.append('::vt::emit("end", "\\"panicked\\":false,\\"result\\":\\"\\"");')
+    scs.append("{ " + "\n      ".join(probes) + " }")
+    descs[n] = {"own": {}, "deps": {}, "expect": "ok", "avail": {k: c["avail"][k]["expect"] for k in probe_types}, "pair": "", "allocpair": "",
+                "answer": "", "kind": "avail"}
+    src = types + fn_item + impls + "pub fn run() {\n    " + "\n    ".join(scs) + "\n}\n"
+    return src, descs
